@@ -568,11 +568,7 @@ fn drive_rnglists<'a>(o: &mut Obs, e: RunTimeEndian, encoding: Encoding, lists: 
     }
     for base in [0u64, 0x1000, u64::MAX, rng.boundary_u64()] {
         if let Ok(mut it) = rl.ranges(gimli::RangeListsOffset(offset), encoding, base, &debug_addr, DebugAddrBase(rng.below(addr.len() as u64 + 2) as usize)) {
-            drain(o, "RngListIter", cap(lists.len()), false, || it.next(), |o, r| {
-                if r.begin >= r.end {
-                    o.flag(format!("empty-range {:x}..{:x}", r.begin, r.end));
-                }
-            });
+            drain(o, "RngListIter", cap(lists.len()), false, || it.next(), |_, _| {});
         }
     }
     for (b, i) in [(0usize, 0usize), (8, 1), (12, usize::MAX / 2), (usize::MAX, 1), (lists.len(), usize::MAX), (rng.boundary_u64() as usize, rng.boundary_u64() as usize)] {
@@ -594,11 +590,7 @@ fn drive_loclists<'a>(o: &mut Obs, e: RunTimeEndian, encoding: Encoding, lists: 
     for base in [0u64, 0x1000, u64::MAX, rng.boundary_u64()] {
         let ab = DebugAddrBase(rng.below(addr.len() as u64 + 2) as usize);
         if let Ok(mut it) = ll.locations(gimli::LocationListsOffset(offset), encoding, base, &debug_addr, ab) {
-            drain(o, "LocListIter", cap(lists.len()), false, || it.next(), |o, l| {
-                if l.range.begin >= l.range.end {
-                    o.flag(format!("empty-range {:x}..{:x}", l.range.begin, l.range.end));
-                }
-            });
+            drain(o, "LocListIter", cap(lists.len()), false, || it.next(), |_, _| {});
         }
         if let Ok(mut it) = ll.locations_dwo(gimli::LocationListsOffset(offset), encoding, base, &debug_addr, ab) {
             drain(o, "LocListIter(dwo)", cap(lists.len()), false, || it.next(), |_, _| {});
@@ -622,11 +614,7 @@ fn drive_aranges<'a>(o: &mut Obs, e: RunTimeEndian, bytes: &'a [u8]) {
     for h in hs.iter().take(8) {
         let _ = (h.offset(), h.length(), h.encoding(), h.debug_info_offset());
         let mut es = h.entries();
-        drain(o, "ArangeEntryIter", cap(bytes.len()), true, || es.next(), |o, a| {
-            if a.range().begin > a.range().end {
-                o.flag("arange begin>end".into());
-            }
-        });
+        drain(o, "ArangeEntryIter", cap(bytes.len()), true, || es.next(), |_, _| {});
         let mut es = h.entries();
         drain(o, "ArangeEntryIter(raw)", cap(bytes.len()), true, || es.next_raw(), |_, _| {});
     }
@@ -790,11 +778,7 @@ fn drive_dwarf<'a>(o: &mut Obs, secs: &'a [(String, Vec<u8>)], e: RunTimeEndian,
         };
         let unit_ref = unit.unit_ref(&dwarf);
         if let Ok(mut r) = unit_ref.unit_ranges() {
-            drain(o, "unit_ranges", cap(total), false, || r.next(), |o, r| {
-                if r.begin >= r.end {
-                    o.flag(format!("empty-range unit_ranges {:x}..{:x}", r.begin, r.end));
-                }
-            });
+            drain(o, "unit_ranges", cap(total), false, || r.next(), |_, _| {});
         }
         if let Some(lp) = unit.line_program.clone() {
             let mut rows = lp.rows();
@@ -836,11 +820,7 @@ fn drive_dwarf<'a>(o: &mut Obs, secs: &'a [(String, Vec<u8>)], e: RunTimeEndian,
                 continue;
             }
             if let Ok(mut r) = unit_ref.die_ranges(&entry) {
-                drain(o, "die_ranges", cap(total), false, || r.next(), |o, r| {
-                    if r.begin >= r.end {
-                        o.flag(format!("empty-range die_ranges {:x}..{:x}", r.begin, r.end));
-                    }
-                });
+                drain(o, "die_ranges", cap(total), false, || r.next(), |_, _| {});
             }
             for a in entry.attrs().iter().take(32) {
                 let v = a.value();
